@@ -24,6 +24,7 @@ CONTRACTS[M + "add_note"] = dict(
               "len(self.notes) == old_len + (0 if any([p == pitch(note) for p in old_pitches]) else 1)")],
     modifies=["param:self", "param:self.notes"],
     split=[{"field_types": {"self.notes": sz}} for sz in SIZES], split_is_domain=True,
+    split_thorough=[{"field_types": {"self.notes": "[" + ",".join(["Note"] * k) + "]"}} for k in range(0, 4)],
     variants=[dict(
         name="bare-name",
         params={"self": "NoteContainer", "note": "str", "octave": "None", "dynamics": "None"},
@@ -86,6 +87,7 @@ CONTRACTS[M + "remove_note"] = dict(
               "list_same(self.notes, [n for n in old_notes if %s])" % _KEEP_NAME)],
     modifies=["param:self"],
     split=[{"field_types": {"self.notes": sz}} for sz in SIZES4], split_is_domain=True,
+    split_thorough=[{"field_types": {"self.notes": "[" + ",".join(["Note"] * k) + "]"}} for k in range(0, 5)],
     variants=[dict(
         name="by-note", params={"self": "NoteContainer", "note": "Note", "octave": "int"},
         requires=[("valid-names", "all([is_name(n.name) for n in self.notes]) and is_name(note.name)")],
